@@ -209,14 +209,43 @@ class BVN(Family):
 
     def liesel(self, transformed):
         a = lsl.param(np.float32(0.0), lsl.Dist(tfd.Normal, loc=np.float32(0.0), scale=np.float32(1.0)), name="a")
-        bloc = lsl.Calc(lambda a: self.rho * a, a)
+        bloc = lsl.Calc(lambda a: jnp.float32(self.rho) * jnp.asarray(a), a)     # (python float * numpy 0-d float32 would become float64)
         b = lsl.param(np.float32(0.0), lsl.Dist(tfd.Normal, loc=bloc, scale=np.float32(math.sqrt(1 - self.rho**2))), name="b")
-        mu = lsl.Var(lsl.Calc(lambda a, b: a + b, a, b), name="mu")
+        mu = lsl.Var(lsl.Calc(lambda a, b: jnp.asarray(a) + jnp.asarray(b), a, b), name="mu")
         y = lsl.obs(np.zeros(self.n, dtype=np.float32), lsl.Dist(tfd.Normal, loc=mu, scale=np.float32(1.0)), name="y")
         return lsl.GraphBuilder().add(y).build_model(), {"a": "a", "b": "b"}
 
 
-FAMILIES = {f.name: f for f in (NormalMS, LinReg, Poisson, Logistic, BVN)}
+class GammaPrec(Family):
+    """precision tau ~ Gamma(2, 1) sampled on its natural (bounded) scale; y_i ~ N(0, tau^-1/2).  Outside the support the log-density
+    is NaN (log of a negative number), so a correct kernel must reject such proposals; posterior mass sits near the boundary."""
+
+    name = "gamma_prec"
+    blocks = {"tau": ()}
+
+    def sample(self, rng, N):
+        tau = rng.gamma(2.0, 1.0, size=N)
+        y = rng.normal(size=(N, self.n)) / np.sqrt(tau)[:, None]
+        return {"tau": tau}, y
+
+    def logp(self, s):
+        tau, y = s["tau"], s["y"]
+        return jnp.log(tau) - tau + 0.5 * self.n * jnp.log(tau) - 0.5 * tau * jnp.sum(y * y)
+
+    def pit(self, th):
+        return {"tau": sps.gamma.cdf(th["tau"], 2.0)}
+
+    def loglik(self, th, y):
+        return np.sum(sps.norm.logpdf(y, 0.0, 1.0 / np.sqrt(np.maximum(th["tau"], 1e-300))[:, None]), axis=1)
+
+    def liesel(self, transformed):
+        tau = lsl.param(np.float32(1.0), lsl.Dist(tfd.Gamma, concentration=np.float32(2.0), rate=np.float32(1.0)), name="tau")
+        scale = lsl.Var(lsl.Calc(lambda t: 1.0 / jnp.sqrt(jnp.asarray(t)), tau), name="scale")
+        y = lsl.obs(np.zeros(self.n, dtype=np.float32), lsl.Dist(tfd.Normal, loc=np.float32(0.0), scale=scale), name="y")
+        return lsl.GraphBuilder().add(y).build_model(), {"tau": "tau"}
+
+
+FAMILIES = {f.name: f for f in (NormalMS, LinReg, Poisson, Logistic, BVN, GammaPrec)}
 GRADIENT = ["nuts", "hmc", "iwls", "rw", "mh"]
 
 
@@ -231,7 +260,7 @@ def gen():
         groups = [blocks] if joint else [[b] for b in draw(st.permutations(blocks))]
         kernels = []
         for grp in groups:
-            kinds = list(GRADIENT)
+            kinds = list(GRADIENT) if fam != "gamma_prec" else ["rw", "rw", "mh", "iwls"]     # natural-scale sampling of a bounded parameter
             if fam == "bvn" and len(grp) == 1:
                 kinds += ["gibbs", "gibbs", "gibbs"]
             kernels.append({"keys": list(grp), "kind": draw(st.sampled_from(kinds)), "step": draw(st.sampled_from([0.1, 0.2, 0.4, 0.8, 1.5])),
